@@ -33,7 +33,8 @@ fn tree() -> TreeSpec {
         ObjSpec::roa("v4maxonly", 64496, "10.2.0.0", 24, 32),   // length at limit, max-length beyond
         ObjSpec::roa("v6at", 64496, "2001:db8:1::", 48, 48),
         ObjSpec::roa("v6over", 64496, "2001:db8:2::", 49, 64),
-        ObjSpec::roa("unsafe", 64496, "10.9.1.0", 24, 24),      // overlaps the rejected CA below
+        ObjSpec::roa("unsafe", 64496, "10.9.1.0", 24, 24),      // inside the rejected CA's resources below
+        ObjSpec::roa("unsafecover", 64496, "10.8.0.0", 15, 15), // covers them (and 10.8/16)
         ObjSpec::aspa("aspa1", 64500, &[1, 2]),
         ObjSpec::aspa("aspa2", 64500, &[2, 3]),                 // same customer
         ObjSpec::aspa("bigA1", BIG_A, &(1..=half + 1).collect::<Vec<_>>()),
@@ -106,7 +107,7 @@ fn expected(image: &Image, o: &Opt) -> (BTreeSet<RouteOrigin>, BTreeSet<Vec<u8>>
                 let len = or.prefix.prefix_len();
                 let limit = if or.is_v4() { o.v4 } else { o.v6 };
                 if limit.map(|l| len > l).unwrap_or(false) { continue }
-                if t.obj == "unsafe" && matches!(o.unsafe_vrps, FilterPolicy::Reject) { continue }
+                if t.obj.starts_with("unsafe") && matches!(o.unsafe_vrps, FilterPolicy::Reject) { continue }
                 let drop = match o.slurm {
                     Slurm::PrefixFilter => *or == data::v4(10, 3, 0, 0, 16, 16, 64498),
                     Slurm::AsnFilter => or.asn == Asn::from_u32(64497),
